@@ -2,7 +2,8 @@ pub struct Error;
 
 #[inline(always)]
 fn digit(c: u8) -> Result<u8, Error> {
-    c.is_ascii_digit().then_some(c - b'0').ok_or(Error)
+    // `then_some` would evaluate `c - b'0'` eagerly and overflow for bytes below `b'0'`
+    c.is_ascii_digit().then(|| c - b'0').ok_or(Error)
 }
 
 #[inline(always)]
